@@ -2,6 +2,7 @@ import TantivyModel.Driver.Proto
 import TantivyModel.Model.Writer
 import TantivyModel.Model.WriterMergeMeta
 import TantivyModel.Model.WriterHistory
+import TantivyModel.Model.WriterBook
 /-!
 Line protocol of the C02 model.  Documents are the harness's unique ids; a delete query travels
 as its extension over the ids of the history (`-` = matches nothing).
@@ -18,7 +19,9 @@ History tokens (no blanks inside a token, optional `@n` suffix = opstamp the rea
   `C02 replay tok…`            -> `committed=<ids>;pending=<ids>;last=<n>;payload=<n|->`  (specification)
   `C02 impl <workers> <seed> tok…` -> the implementation-level model under a schedule derived from
                                   `seed`, ticking the stamper up to the observed opstamps:
-                                  `pub=<ids>;meta=<n>;payload=<n|->;cop=<n>;ret=<n,…>;segs=<k>;merges=<k>`
+                                  `pub=<ids>;meta=<n>;payload=<n|->;cop=<n>;ret=<n,…>;segs=<k>;merges=<k>;pubD=<ids>`
+                                  (`pubD`: what the machine WITH the bookkeeping of advance_deletes,
+                                  `Model/WriterBook.lean`, publishes after the same events)
   `C02 mergecorner <B> <victim ids> <delop|->:<ids>;…` -> `pub=<ids>;cursor=<n>`: the merged segment
                                   after ONE merge of those committed segments, when the log holds one
                                   delete stamped with the commit opstamp B (advance_deletes with its
@@ -122,6 +125,8 @@ def hypViolations (h : List (Op Nat)) : List Nat × List Nat :=
 structure Sched where
   st : WState Nat
   rng : Nat
+  /-- the events fired so far, last first (replayed on the machine with bookkeeping, `pubD`) -/
+  evs : List (Event Nat) := []
 
 def nextRng (r : Nat) : Nat := (r * 6364136223846793005 + 1442695040888963407) % 18446744073709551616
 
@@ -131,7 +136,7 @@ def Sched.draw (sc : Sched) (n : Nat) : Nat × Sched :=
 
 def Sched.fire (sc : Sched) (e : Event Nat) : Sched :=
   match step sc.st e with
-  | some (s', _) => { sc with st := s' }
+  | some (s', _) => { sc with st := s', evs := e :: sc.evs }
   | none => sc
 
 /-- the hypothesis `cleanState` of `C02_commit_refines_replay_partial`, decided on a model state -/
@@ -223,7 +228,7 @@ def implRun (sc : Sched) : List (Op Nat × Option Nat) → Nat → List Nat → 
       if (match op with | .deleteAll => !cleanStateB sc.st | _ => false) then .error s!"hyp-violated:{i}" else
       match step sc.st (opToEvent op) with
       | none => .error s!"disabled:{i}"
-      | some (s', ret) => implRun { sc with st := s' } rest (i + 1) (ret :: rets)
+      | some (s', ret) => implRun { sc with st := s', evs := opToEvent op :: sc.evs } rest (i + 1) (ret :: rets)
 
 /-! ### the forced producer schedules (one worker, deterministic) -/
 
@@ -338,7 +343,11 @@ def handle : List String → String
       | .error e => e
       | .ok (sc, rets) =>
         let s := sc.st
-        s!"pub={showNatList (sortNat (published s))};meta={s.metas.opstamp};payload={showOpt s.metas.payload};cop={commitOpstamp s};ret={showNatList rets};segs={s.metas.segs.length};merges={s.merges.length}"
+        -- the same events on the machine with the bookkeeping of advance_deletes (Model/WriterBook.lean)
+        let pubD := match runD (WState.init nw, Book.init) sc.evs.reverse with
+          | some (sD, _) => showNatList (sortNat (published sD))
+          | none => "disabled"
+        s!"pub={showNatList (sortNat (published s))};meta={s.metas.opstamp};payload={showOpt s.metas.payload};cop={commitOpstamp s};ret={showNatList rets};segs={s.metas.segs.length};merges={s.merges.length};pubD={pubD}"
     | _, _, _ => "bad-op"
   | _ => "bad-op"
 
